@@ -27,7 +27,7 @@ def inductive(module, broken=None, cinit='ConstInit', inv='IndInv', timeout=600)
             try:
                 p = subprocess.run(['apalache-mc', 'check', '--cinit=' + cinit, '--inv=' + inv, '--out-dir=' + os.path.join(d, 'out')] + args + [mod + '.tla'],
                                    cwd=d, stdout=subprocess.PIPE, stderr=subprocess.STDOUT, timeout=timeout,
-                                   env=dict(os.environ, JVM_ARGS='-Djava.io.tmpdir=' + d))
+                                   env=dict(os.environ, TMPDIR=d))      # (the wrapper script leaves a SANY* directory in $TMPDIR)
                 txt = p.stdout.decode('utf-8', 'replace')
                 out[label] = 'OK' if 'EXITCODE: OK' in txt else ('VIOLATED' if 'EXITCODE: ERROR (12)' in txt else 'ERROR')
             except Exception as e:
